@@ -90,11 +90,11 @@ func constName(info *types.Info, e ast.Expr) string {
 	switch x := ast.Unparen(e).(type) {
 	case *ast.Ident:
 		if c, ok := info.Uses[x].(*types.Const); ok {
-			return c.Name()
+			return objName(c)
 		}
 	case *ast.SelectorExpr:
 		if c, ok := info.Uses[x.Sel].(*types.Const); ok {
-			return c.Name()
+			return objName(c)
 		}
 	}
 	return ""
